@@ -28,6 +28,10 @@ import (
 
 const psPartSize = 8
 
+// psStateCap bounds one graph. On code where the property holds a set of n parts has 2^n states; the cap is
+// only reached when bogus parts are accepted (then the graph has up to (n+1)^n states).
+const psStateCap = 120000
+
 type psToken struct {
 	name    string
 	class   string
@@ -268,11 +272,14 @@ func psConfigs() []*psConfig {
 	maxN := 5
 	tails := []int{3}
 	if r.Thorough() {
-		maxN = 6
+		maxN = 8
 		tails = []int{1, 3, 7, 8}
 	}
 	for n := 1; n <= maxN; n++ {
 		for _, t := range tails {
+			if n > 6 && t != 3 && t != 8 {
+				continue
+			}
 			cs = append(cs, newPSConfig(n, t, "distinct"))
 		}
 		if n == 2 || n == 3 || (r.Thorough() && n <= 5) {
@@ -379,7 +386,7 @@ type psExpand struct {
 
 func psSig(class, oracle string) string { return "C13|part=" + class + "|oracle=" + oracle }
 
-func wrongClasses(c *psConfig, v psView, fill []string) string {
+func wrongClasses(c *psConfig, v psView, fill []string) []string {
 	set := map[string]bool{}
 	for i := 0; i < c.n; i++ {
 		if v.filled[i] && !bytes.Equal(v.slots[i], c.orig[i]) {
@@ -395,7 +402,7 @@ func wrongClasses(c *psConfig, v psView, fill []string) string {
 		ks = append(ks, k)
 	}
 	sort.Strings(ks)
-	return strings.Join(ks, "+")
+	return ks
 }
 
 // stateOracles checks the invariants of one reached state.
@@ -433,17 +440,24 @@ func psStateOracles(c *psConfig, ps *types.PartSet, v psView, fill []string) (ev
 	var err error
 	p, pv := safely(func() { got, err = ioutil.ReadAll(ps.GetReader()) })
 	if p {
-		evs = append(evs, obs{psSig(orAny(wrong), "complete-reader-panics"), c.name + ": GetReader/ReadAll panicked: " + pv})
+		cl := "genuine"
+		if len(wrong) > 0 {
+			cl = wrong[0]
+		}
+		evs = append(evs, obs{psSig(cl, "complete-reader-panics"), c.name + ": GetReader/ReadAll panicked: " + pv})
 		return evs, true, false
 	}
 	var root []byte
 	if nf == c.n {
 		root = merkle.SimpleHashFromByteSlices(v.slots)
 	}
-	if wrong != "" {
-		evs = append(evs, obs{psSig(wrong, "complete-but-wrong-bytes"),
-			fmt.Sprintf("%s: the set reports IsComplete() but its reader yields %x, the sender's data is %x; header hash %x, merkle root of the held parts %x",
-				c.name, got, c.data, c.header.Hash.Bytes(), root)})
+	if len(wrong) > 0 {
+		// one observation per class of bogus part held (so the signature set grows with the classes, not with their combinations)
+		for _, cl := range wrong {
+			evs = append(evs, obs{psSig(cl, "complete-but-wrong-bytes"),
+				fmt.Sprintf("%s: the set reports IsComplete() but its reader yields %x, the sender's data is %x; header hash %x, merkle root of the held parts %x; bogus parts held: %s",
+					c.name, got, c.data, c.header.Hash.Bytes(), root, strings.Join(wrong, ", "))})
+		}
 		return evs, true, false
 	}
 	if err != nil || !bytes.Equal(got, c.data) {
@@ -479,13 +493,6 @@ func psStateOracles(c *psConfig, ps *types.PartSet, v psView, fill []string) (ev
 		}
 	}
 	return evs, true, true
-}
-
-func orAny(s string) string {
-	if s == "" {
-		return "genuine"
-	}
-	return s
 }
 
 // psStep offers token t to ps (whose view before the call is v0) and evaluates the transition oracle.
@@ -627,7 +634,7 @@ func explorePS(c *psConfig) (tot psTotals, finished bool) {
 	rejected := map[int]bool{}
 	depth := 0
 	for len(frontier) > 0 {
-		if r.Expired() {
+		if r.Expired() || len(seen) > psStateCap {
 			return tot, false
 		}
 		res := make([]*psExpand, len(frontier))
@@ -704,8 +711,10 @@ func runPartSets() {
 		sample = append(sample, map[string]interface{}{"config": c.name, "alphabet": len(c.tokens), "states": tot.states, "transitions": tot.transitions,
 			"complete_states": tot.complete, "complete_with_exact_bytes": tot.completeOK, "depth": tot.maxDepth, "fixpoint": fin})
 		if !fin {
-			r.NotExhaustive("part-set graph of " + c.name + " not finished")
-			break
+			r.NotExhaustive("part-set graph of " + c.name + " stopped at the state cap / deadline")
+			if r.Expired() {
+				break
+			}
 		}
 	}
 	r.Set("partset_graphs", sample)
@@ -724,7 +733,7 @@ func rerunPartSet(c Case) []obs {
 	}
 	if cfg == nil {
 		// the stored case may come from the other tier
-		for _, n := range []int{1, 2, 3, 4, 5, 6} {
+		for _, n := range []int{1, 2, 3, 4, 5, 6, 7, 8} {
 			for _, t := range []int{1, 3, 7, 8} {
 				for _, p := range []string{"distinct", "repeated"} {
 					if x := newPSConfig(n, t, p); x.name == c.Config {
